@@ -415,3 +415,20 @@ Lemma remove_absent_state s e : ds_contains s e = false -> step s (ORemove e) = 
 Proof.
   unfold ds_contains, step, ds_remove. destruct (lookup (hm s) e); [discriminate|reflexivity].
 Qed.
+
+(* the draw is a BIJECTION between the indices below len and the members: every member is returned
+   by exactly one index (so a uniform index, random.choice, is a uniform member), that index is the
+   one the hashmap stores, and len is the cardinality of the plain set *)
+Lemma draw_bijection s l : R s l ->
+  ds_len s = length l /\
+  (forall e, In e l -> exists i, i < ds_len s /\ ds_draw s i = Some e /\ lookup (hm s) e = Some i /\
+     forall j, ds_draw s j = Some e -> j = i) /\
+  (forall i j e, ds_draw s i = Some e -> ds_draw s j = Some e -> i = j).
+Proof.
+  intros HR. pose proof (R_length s l HR) as Hlen. destruct HR as [[Hnd Hhm] [Hndl H]].
+  unfold ds_len, ds_draw. split; [exact Hlen|]. split.
+  - intros e He. apply H in He. apply In_nth_error in He. destruct He as [i Hi].
+    exists i. split; [apply nth_error_Some; congruence|]. split; [exact Hi|].
+    split; [apply Hhm; exact Hi|]. intros j Hj. exact (NoDup_nth_error_inj (edges s) j i e Hnd Hj Hi).
+  - intros i j e Hi Hj. exact (NoDup_nth_error_inj (edges s) i j e Hnd Hi Hj).
+Qed.
